@@ -77,12 +77,12 @@ Section Sound.
       + (* if left *) intros a b tr r _ IH d d' H. rewrite must_i_if in H.
         destruct (must_l p c d a) as [x|] eqn:Ea; [|discriminate].
         destruct (must_l p c d b) as [y|] eqn:Eb; [|discriminate]. inversion H; subst d'.
-        specialize (IH d x eq_refl). destruct r; auto.
+        specialize (IH d x Ea). destruct r; auto.
         intros Hxy. apply andb_true_iff in Hxy. apply IH. tauto.
       + (* if right *) intros a b tr r _ IH d d' H. rewrite must_i_if in H.
         destruct (must_l p c d a) as [x|] eqn:Ea; [|discriminate].
         destruct (must_l p c d b) as [y|] eqn:Eb; [|discriminate]. inversion H; subst d'.
-        specialize (IH d y eq_refl). destruct r; auto.
+        specialize (IH d y Eb). destruct r; auto.
         intros Hxy. apply andb_true_iff in Hxy. apply IH. tauto.
       + (* loop exit *) intros b d d' H. rewrite must_i_loop in H.
         destruct (must_l p c d b); [|discriminate]. inversion H; subst d'.
@@ -96,17 +96,17 @@ Section Sound.
           rewrite orb_assoc. rewrite (orb_comm (tr_done tr2)). rewrite IH2. reflexivity.
       + (* loop, returning iteration *) intros b tr _ IH d d' H. rewrite must_i_loop in H.
         destruct (must_l p c d b) as [x|] eqn:Eb; [|discriminate].
-        exact (IH d x eq_refl).
+        exact (IH d x Eb).
       + (* simple *) intros i Hs d d' H.
         destruct (must_i_simple d i Hs) as (d2 & E & Hd2). rewrite E in H. inversion H; subst d2.
         intros Hd. unfold tr_done. cbn [existsb]. rewrite orb_false_r. auto.
       + (* nil *) intros d d' H. cbn in H. inversion H; subst. intros ->. reflexivity.
       + (* cons, head returns *) intros i k tr _ IH d d' H. rewrite must_l_cons in H.
         destruct (must_i p c d i) as [x|] eqn:Ei; [|discriminate].
-        exact (IH d x eq_refl).
+        exact (IH d x Ei).
       + (* cons, sequence *) intros i k tr1 tr2 r _ IH1 _ IH2 d d' H. rewrite must_l_cons in H.
         destruct (must_i p c d i) as [x|] eqn:Ei; [|discriminate].
-        specialize (IH1 d x eq_refl). cbn beta iota in IH1.
+        specialize (IH1 d x Ei). cbn beta iota in IH1.
         specialize (IH2 x d' H). rewrite tr_done_app.
         destruct r.
         * destruct x.
@@ -122,12 +122,12 @@ Section Sound.
       + intros a b tr r _ IH d d' H. rewrite must_i_if in H.
         destruct (must_l p c d a) as [x|] eqn:Ea; [|discriminate].
         destruct (must_l p c d b) as [y|] eqn:Eb; [|discriminate]. inversion H; subst d'.
-        specialize (IH d x eq_refl). destruct r; auto.
+        specialize (IH d x Ea). destruct r; auto.
         intros Hxy. apply andb_true_iff in Hxy. apply IH. tauto.
       + intros a b tr r _ IH d d' H. rewrite must_i_if in H.
         destruct (must_l p c d a) as [x|] eqn:Ea; [|discriminate].
         destruct (must_l p c d b) as [y|] eqn:Eb; [|discriminate]. inversion H; subst d'.
-        specialize (IH d y eq_refl). destruct r; auto.
+        specialize (IH d y Eb). destruct r; auto.
         intros Hxy. apply andb_true_iff in Hxy. apply IH. tauto.
       + intros b d d' H. rewrite must_i_loop in H.
         destruct (must_l p c d b); [|discriminate]. inversion H; subst d'.
@@ -141,17 +141,17 @@ Section Sound.
           rewrite orb_assoc. rewrite (orb_comm (tr_done tr2)). rewrite IH2. reflexivity.
       + intros b tr _ IH d d' H. rewrite must_i_loop in H.
         destruct (must_l p c d b) as [x|] eqn:Eb; [|discriminate].
-        exact (IH d x eq_refl).
+        exact (IH d x Eb).
       + intros i Hs d d' H.
         destruct (must_i_simple d i Hs) as (d2 & E & Hd2). rewrite E in H. inversion H; subst d2.
         intros Hd. unfold tr_done. cbn [existsb]. rewrite orb_false_r. auto.
       + intros d d' H. cbn in H. inversion H; subst. intros ->. reflexivity.
       + intros i k tr _ IH d d' H. rewrite must_l_cons in H.
         destruct (must_i p c d i) as [x|] eqn:Ei; [|discriminate].
-        exact (IH d x eq_refl).
+        exact (IH d x Ei).
       + intros i k tr1 tr2 r _ IH1 _ IH2 d d' H. rewrite must_l_cons in H.
         destruct (must_i p c d i) as [x|] eqn:Ei; [|discriminate].
-        specialize (IH1 d x eq_refl). cbn beta iota in IH1.
+        specialize (IH1 d x Ei). cbn beta iota in IH1.
         specialize (IH2 x d' H). rewrite tr_done_app.
         destruct r.
         * destruct x.
